@@ -22,8 +22,7 @@ P = ['C03', 'C06', 'C07', 'C08', 'C09', 'C13']
 # functions of syntax_to_semantics.rs that are NOT verified (closures / iterator adapters capturing
 # `&mut Context`, generic SourceTrait plumbing): declared with havoc contracts
 S2S_UNVERIFIED = set()
-S2S_SKIP = {'syntax_to_semantic', 'parse_source_string_with_path_search', 'parse_source_file_with_search', 'parse_source_string', 'parse_source_file',
-            'analyze_source', 'ParseResult'}
+S2S_SKIP = {'parse_source_string_with_path_search', 'parse_source_file_with_search', 'parse_source_string', 'parse_source_file', 'ParseResult'}
 
 # asg.rs methods outside the dialect (generic `T: ToString`, slice accessors via Deref, iterator/println)
 ASG_TRUSTED = {}
@@ -61,6 +60,8 @@ ACC_SOME = {
     ('ParenExpr', 'expr'): (AP, 'empty parentheses in expression position are a syntax error'),
     ('AssignmentStmt', 'rhs'): (AP, 'a missing right-hand side is a syntax error'),
     ('AssignmentStmt', 'indexed_identifier'): (AP, 'the target of an ASSIGNMENT_STMT is IDENTIFIER or INDEXED_IDENTIFIER'),
+    ('Include', 'file'): (AP, '`include` without a file path is a syntax error'),
+    ('FilePath', 'to_string'): (AP, 'a FILE_PATH is a (terminated) string literal'),
     ('IndexedIdentifier', 'identifier'): (AP, 'an INDEXED_IDENTIFIER precedes its identifier'),
     ('TypedParam', 'name'): (AP, 'a typed parameter without a name is a syntax error'),
     ('PowModifier', 'paren_expr'): (AP, '`pow` without a parenthesised exponent is a syntax error'),
@@ -305,7 +306,23 @@ impl<N> AstChildren<N> {
     U.raw(ast_text, note='generated AST view: %d node types, %d accessors' % (n_nodes, n_acc))
     U.raw('}\npub mod semantic_error {\nuse vstd::prelude::*;\n')
     U.file(ERR).item('enum', 'SemanticErrorKind')
-    U.raw('}\n')
+    U.raw('''/// semantic_error.rs: the diagnostics of one file, and (nested) those of the files it includes (opaque)
+#[verifier::external_body] pub struct SemanticErrorList { _p: u8 }
+impl SemanticErrorList {
+    pub uninterp spec fn kinds(&self) -> Seq<SemanticErrorKind>;
+    pub uninterp spec fn included(&self) -> Seq<SemanticErrorList>;
+    /// unit SYM: SemanticErrorList::new
+    #[verifier::external_body] pub fn new(source_file_path: crate::source::PathBuf) -> (r: SemanticErrorList)
+        ensures r.kinds() == Seq::<SemanticErrorKind>::empty(), r.included().len() == 0
+    { unimplemented!() }
+}
+impl SemanticErrorKind {
+    /// semantic_error.rs: io::ErrorKind -> FileNotFound / PermissionDenied / IOError
+    #[verifier::external_body] pub fn from_io_error(io_error: crate::source::IoErrorKind) -> SemanticErrorKind { unimplemented!() }
+}
+}
+''')
+    U.raw(open(__file__.replace('units/sema.py', 'contracts/sema.source.rs')).read())
     # ---- asg.rs, all of it
     U.raw('pub mod asg {\nuse vstd::prelude::*;\nuse crate::symbols::SymbolIdResult;\nuse crate::types;\nuse crate::types::{ArrayDims, IsConst, Type};\n')
     a = U.file(ASG)
@@ -386,6 +403,13 @@ impl vstd::std_specs::convert::TryFromSpecImpl<&TExpr> for u32 {
 use context::Context;
 use semantic_error::SemanticErrorKind::{self, *};
 use symbols::{ScopeType, SymbolIdResult, SymbolTable, SymbolError, SymbolId};
+use semantic_error::SemanticErrorList;
+use source::{SourceFile, SourceString, SourceTrait, Path, PathBuf};
+use std::mem::replace;
+// assumed-dep (std): mem::replace stores the new value and returns the old one
+pub assume_specification<T> [std::mem::replace] (dest: &mut T, src: T) -> (r: T)
+    ensures *final(dest) == src, r == *old(dest);
+use vstd::std_specs::iter::IteratorSpec;
 use synast::{HasArgList, HasName, HasTextNode};
 pub mod oq3_syntax { pub use crate::synast::BlockOrStmt; pub mod ast { pub use crate::synast::*; } }
 /// crate::utils::type_name_of (std::any::type_name; only used inside a panic message)
@@ -397,6 +421,8 @@ pub assume_specification<T: Clone, EE: Clone> [<Result<T, EE> as Clone>::clone] 
     ensures match (*x, c) { (Ok(a), Ok(b)) => cloned(a, b), (Err(a), Err(b)) => cloned(a, b), _ => false };
 ''')
     z = U.file(S2S)
+    z.item('struct', 'ParseResult')
+    U.raw('impl Clone for Context { #[verifier::external_body] fn clone(&self) -> (r: Context) ensures r == *self { unimplemented!() } }   // #[derive(Clone)]\n')
     z.item('macro_rules', 'not_impl')
     U.file(CTX).item('macro_rules', 'with_scope')
     zov = {}
@@ -596,7 +622,7 @@ ensures
 '''))
     zov.setdefault('assignment_stmt_to_asg_stmt', {}).update(dict(ret='r', props=['C08', 'C13', 'C03'], spec='''
 ensures
-    grows(*old(context), *final(context)), r is Some,
+    grows(*old(context), *final(context)), r is Some, r->Some_0 is Assignment,
     // assignment to a declared variable: value of exactly the variable's type (directly or through an
     // explicit cast to it) or one type diagnostic; MutateConstError iff the target is a const symbol
     assignment_stmt.sp_identifier() is Some ==> r->Some_0 is Assignment && (exists|mid: Context, td: Seq<SemanticErrorKind>|
@@ -620,6 +646,52 @@ ensures
     zov.setdefault('paren_expr_to_asg_texpr', {}).update(dict(ret='res', spec='ensures res is Some, grows(*old(context), *final(context)),'))
     zov.setdefault('io_declaration_statement_to_asg_stmt', {}).update(dict(ret='r', props=['C06', 'C09', 'C03'], spec='''ensures grows(*old(context), *final(context)),
     if type_decl.sp_input_token() is Some { r is InputDeclaration } else { r is OutputDeclaration },          //@C06:statement-kind'''))
+    zov['syntax_to_semantic'] = dict(ret='r', props=['C03', 'C06', 'C07', 'C11'], for_iter=['statements'], destruct=True, string_eq=['file_path'],
+        spec='''requires
+    context.wf(), context.global(),
+    source::analyzable(parsed_source.sp_syntax_ast(), parsed_source.sp_included()) /* AP: established by oq3_source_file::parse_included_files */,
+ensures
+    // only the global scope is open afterwards, and nothing that was bound has been removed or replaced
+    r.0.wf(), r.0.global(),                                                              //@C03,C07:only-global-scope-open
+    sub_scope(context.scopes().last(), r.0.scopes().last()),                             //@C07:global-bindings-kept
+    // the statements of the program so far are kept, in order: this file's statements are appended
+    stmts_ext(context.program.stmts@, r.0.program.stmts@),                               //@C06:statements-appended-in-source-order
+    r.0.program.version == context.program.version,
+    // the caller's list of diagnostics is handed back untouched; this file's list only grows
+    r.0.semantic_errors.kinds() == context.semantic_errors.kinds(),
+    ext(errors.kinds(), r.1.kinds()),''',
+        loops={1: '''invariant
+    context.wf(), context.global(),
+    sub_scope(ctx0.scopes().last(), context.scopes().last()),
+    stmts_ext(ctx0.program.stmts@, context.program.stmts@), context.program.version == ctx0.program.version,
+    ext(errors.kinds(), context.semantic_errors.kinds()),
+    // the includes not yet evaluated are exactly the entries of `included` not yet consumed
+    source::n_real_includes(oq3_itf1.rest()) == included_iter.remaining().len(),
+    forall|i: int| 0 <= i < included_iter.remaining().len() && (*#[trigger] included_iter.remaining()[i]).sp_include_error() is None ==> source::analyzable_file(*included_iter.remaining()[i]),
+ensures oq3_itf1.rest().len() == 0,
+decreases oq3_itf1.rest().len(),'''},
+        loop_ghost='broadcast use sema_lemmas; reveal_with_fuel(source::n_real_includes, 2);',
+        ghost=[('{', 'after', 'broadcast use sema_lemmas; let ghost ctx0 = context;'),
+               ('        if let Some(stmt) = stmt {', 'before', 'let ghost pend = context.annots(); let ghost n0 = context.program.stmts@.len();'),
+               ('                context.program.insert_stmt(anstmt);', 'after', '''proof {
+    // the pending annotations are attached to this statement, and none stays pending
+    assert(context.annots().len() == 0 && context.program.stmts@.len() == n0 + 1 && context.program.stmts@.last() is AnnotatedStmt
+           && context.program.stmts@.last()->AnnotatedStmt_0.annotations@ == pend && pend.len() > 0);     //@C06:annotations-attach-to-the-following-statement
+}'''),
+               ('                context.program.insert_stmt(stmt);', 'after', '''proof {
+    assert(pend.len() == 0 && context.program.stmts@.len() == n0 + 1 && !(context.program.stmts@.last() is AnnotatedStmt));     //@C06:no-annotation-no-wrapper
+}'''),
+               ('    let errors = replace(&mut context.semantic_errors, save_errors);', 'before', 'proof { assert(true); }')])
+    zov['analyze_source'] = dict(ret='r', props=['C11', 'C03'], spec='''requires
+    !parsed_source.sp_have_syntax_errors() ==> source::analyzable(parsed_source.sp_syntax_ast(), parsed_source.sp_included()) /* AP: established by oq3_source_file::parse_included_files */,
+ensures
+    // semantic analysis yields an empty program with no semantic diagnostics whenever the source or any
+    // included file has a syntax diagnostic, and runs otherwise
+    r.have_syntax_errors == parsed_source.sp_have_syntax_errors(),                                                            //@C11:analysis-gated-on-syntax-diagnostics
+    parsed_source.sp_have_syntax_errors() ==> r.context.program.stmts@.len() == 0 && r.context.errs().len() == 0
+        && r.context.semantic_errors.included().len() == 0,                                                                   //@C11:analysis-gated-on-syntax-diagnostics
+    r.syntax_result == parsed_source,
+    r.context.wf() && r.context.global(),                                                                                     //@C03:only-global-scope-open''')
     for fn in ['range_expression_to_asg_type', 'set_expression_to_asg_type', 'index_operator_to_asg_type', 'expression_list_to_asg_type', 'call_expr_to_asg_texpr', 'param_type_to_type', 'io_declaration_statement_to_asg_stmt']:
         zov.setdefault(fn, {}).setdefault('spec', 'ensures grows(*old(context), *final(context)),')
     zov.setdefault('expr_to_asg_texpr', {})['ghost'] = list(zov.get('expr_to_asg_texpr', {}).get('ghost', [])) + [
